@@ -48,6 +48,8 @@ struct Shared {
     /// how long to wait for an external wake-up before a state with no runnable thread is
     /// declared a deadlock (None: immediately)
     external_grace: Option<std::time::Duration>,
+    /// how long delayed runnable threads wait for the outside world ("run-or-wait-external" = wait)
+    idle_grace: std::time::Duration,
 }
 
 /// Payload used to unwind threads of an aborted (deadlocked / over-horizon) execution.
@@ -158,7 +160,7 @@ impl Shared {
                 }
                 let mut grace = self.external_grace.unwrap_or_default();
                 if g.idling {
-                    grace = grace.min(std::time::Duration::from_millis(400));
+                    grace = grace.min(self.idle_grace);
                 }
                 let since = *idle_since.get_or_insert_with(std::time::Instant::now);
                 if since.elapsed() >= grace && g.idling {
@@ -273,10 +275,10 @@ impl ThreadCtx {
                 drop(g);
                 resume_unwind(Box::new(Aborted));
             }
-            if g.ext_woken[self.id] {
-                g.ext_woken[self.id] = false;
-                g.woken[self.id] = true;
-            }
+            // A wake-up from outside the baton that raced with this poll is *not* consumed here:
+            // whether it arrived before or after the poll returned is timing, not schedule.  The
+            // thread parks; `hand_over` / `wait_for_baton` deliver the wake-up when nobody else
+            // can run, which is the same decision whichever way the race went.
             if g.woken[self.id] {
                 // woken during its own poll: poll again (bounded)
                 spins += 1;
@@ -328,6 +330,9 @@ pub fn run_threads_ext(
         ch: ch.clone(),
         horizon,
         external_grace,
+        idle_grace: std::time::Duration::from_millis(
+            std::env::var("VERIF_IDLE_GRACE_MS").ok().and_then(|v| v.parse().ok()).unwrap_or(400),
+        ),
     });
     let mut handles = vec![];
     for (id, (_name, body)) in bodies.into_iter().enumerate() {
